@@ -48,6 +48,11 @@ TRANSFORMS = [
     ("in_embedded_garbage", ["--transform", "fcv-tr-inplace garbage --file=$IN"]),
     ("inout_embedded_keep", ["--transform", "fcv-tr keep if=$IN of=$OUT"]),
     ("inplace_embedded_garbage", ["--transform", "fcv-tr-inplace garbage --file=$IN", "--in-place"]),
+    # programs that rewrite or remove the file they are given as $IN (sed -i, strip, zstd --rm): harmless on the copy
+    ("in_clobber", ["--transform", "fcv-tr clobber $IN"]),
+    ("inout_clobber", ["--transform", "fcv-tr clobber $IN $OUT"]),
+    ("inout_clobber_rm", ["--transform", "fcv-tr clobber_rm $IN $OUT"]),
+    ("inout_embedded_clobber", ["--transform", "fcv-tr clobber if=$IN of=$OUT"]),
     ("in_nocopy_keep", ["--transform", "fcv-tr keep $IN", "--no-copy"]),
     ("inout_nocopy_keep", ["--transform", "fcv-tr keep $IN $OUT", "--no-copy"]),
     ("inplace_nocopy_noop", ["--transform", "fcv-tr-inplace noop $IN", "--in-place", "--no-copy"]),
@@ -69,7 +74,8 @@ def cases(tier, seed):
                 for outmode in ("stdout", "file"):
                     for fmt in ("default", "json"):
                         i += 1
-                        if quick and (i % 4) and tname not in ("inplace_nocopy_noop", "in_embedded_garbage", "inplace_embedded_garbage"):
+                        if quick and (i % 4) and tname not in ("inplace_nocopy_noop", "in_embedded_garbage", "inplace_embedded_garbage",
+                                                                "inout_clobber", "in_clobber"):
                             continue
                         out.append({"kind": "group", "tree": t, "transform": tname, "targs": targs, "cache": cache,
                                     "out": outmode, "fmt": fmt})
